@@ -11,6 +11,7 @@ import (
 	"os"
 	"path/filepath"
 	"runtime"
+	"strconv"
 	"strings"
 	"sync"
 	"sync/atomic"
@@ -39,6 +40,10 @@ import (
 // Plus (seq_test.go): OPERATION SEQUENCES on one key directory (every history of create / load / export / import /
 // junk import / delete-by-hand up to a depth, no state merging) and on two directories (export → import between them,
 // explicit-state search), against a reference model of what each directory holds.
+//
+// Plus (shapes_test.go): the same operations ON TOP OF KEY FILES THE PACKAGE DID NOT WRITE IN THIS FORM (re-indented,
+// trailing newline / junk, legacy shorter / longer, empty, junk shorter / longer), planted by hand as initial states
+// and in the middle of histories; every successful write is confirmed at once.
 //
 // Clauses: panic, wrong-passphrase-rejected, right-passphrase-loads-same-key, loaded-signer-consistent,
 // legacy-passphrase-distinguishes, export-import, loads-in-other-environment, golden-keyfile-loads, golden-address,
@@ -102,6 +107,8 @@ type tcase struct {
 	// sequence section (seq_test.go): the operations, executed in order on fresh directories SeqDirs
 	SeqDirs []string `json:"seq_dirs,omitempty"`
 	Seq     []seqOp  `json:"seq,omitempty"`
+	// file-shape search (shapes_test.go): every successful write is confirmed at once by loading the key it claims
+	SeqVerify bool `json:"seq_verify,omitempty"`
 }
 
 func (c *tcase) describe() string {
@@ -365,7 +372,8 @@ func errClass(err error) string {
 type verdict struct {
 	viol       []vf.Violation
 	outcome    string
-	nontrivial bool // the input reaches key derivation / decryption (the file still decodes)
+	nontrivial bool   // the input reaches key derivation / decryption (the file still decodes)
+	overwrote  string // sequence section: the last step was a successful write: "<operation> over <what the key file was before>"
 }
 
 func (c *tcase) cost() int {
@@ -692,6 +700,15 @@ func pow(b, e int) int {
 	return n
 }
 
+// slow stretches the wall-clock deadlines of this check by the factor in VERIF_C19_SLOW (development aid for a machine
+// that is shared with other runs; the factor is written to the evidence; unset = 1).
+func slow(d time.Duration) time.Duration {
+	if f, err := strconv.Atoi(os.Getenv("VERIF_C19_SLOW")); err == nil && f > 1 {
+		return d * time.Duration(f)
+	}
+	return d
+}
+
 func TestCheck(t *testing.T) {
 	r := vf.Start("C19", "fault_enumeration")
 	r.Assume = []string{
@@ -702,6 +719,7 @@ func TestCheck(t *testing.T) {
 		"a mutated file that still decodes to exactly the original key material (base64 trailing bits, JSON key case) is allowed to load",
 		"operation sequences: the two passphrases P and Q are interchangeable for the code (both non-empty and shorter than 32 bytes) and so are the two directories, which justifies executing one history of each pair that differs only by swapping them; the empty passphrase of the thorough tier is not part of that symmetry",
 		"operation sequences: the code under test keeps no state outside the key directory (no process-wide cache or registry), which is what lets the two-directory search merge histories with equal model states; the one-directory enumeration does not merge and does not rely on it. The model follows what a call reports: whether CreateFileSystemSigner must refuse an occupied directory is not judged (it does, on this tree: counted as an outcome)",
+		"operation sequences over key files the package did not write in this form: the by-hand shapes are harness-made (a file the real ImportPrivateKey wrote earlier, re-formatted with encoding/json.Indent, with bytes appended or cut; the harness-written legacy file; junk) and put in place with os.WriteFile; a shape that is meant to hold a key is probed once on the tree under test and is used as a file without a key when the tree does not open it (listed under shapes_not_accepted_by_this_tree) — that re-formatted files load is not part of the statement. Merging on the model state relies on the no-state-outside-the-directory assumption above and on every successful write having been confirmed by a load at once; which key a directory holds matters only through equality with other keys of the history",
 		"keys, salts and nonces come from a seeded deterministic source (testing/cryptotest.SetGlobalRandom) so that the enumerated files are the same on every run",
 	}
 	cryptotest.SetGlobalRandom(t, 19)
@@ -883,7 +901,7 @@ func TestCheck(t *testing.T) {
 	seqDepth2 := vf.Pick(r, 3, 5)
 	seqPasses2 := vf.Pick(r, seqPasses, []string{"P", "Q", "E"})
 	nSeqSample := 0
-	seq2 := seqTwoDirSearch(r, root, seqPasses2, seqDepth2, workers, vf.Pick(r, 40*time.Second, 6*time.Minute), tally, func(x string) {
+	seq2 := seqTwoDirSearch(r, root, seqPasses2, seqDepth2, workers, slow(vf.Pick(r, 40*time.Second, 6*time.Minute)), tally, func(x string) {
 		if nSeqSample++; nSeqSample <= 1 {
 			r.Sample(x)
 		}
@@ -896,8 +914,27 @@ func TestCheck(t *testing.T) {
 	seq2Ops, seq2KDF := seqOpsExecuted.Load(), seqKDF.Load()
 	seq2Seconds := time.Since(seqStart).Seconds()
 
+	// 7c: writes on top of key files the package did not write in this form (shapes_test.go), explicit-state search
+	// on one directory, every successful write confirmed at once
+	seqStart = time.Now()
+	seqDepth3 := vf.Pick(r, 4, 6)
+	nShapeSample := 0
+	seq3 := seqShapeSearch(r, root, seqPasses2, thorough, seqDepth3, workers, slow(vf.Pick(r, 40*time.Second, 6*time.Minute)), tally, func(x string) {
+		if nShapeSample++; nShapeSample <= 2 {
+			r.Sample(x)
+		}
+	})
+	if seq3.engineErr != "" {
+		r.EngineError(seq3.engineErr)
+	}
+	done.Add(seq3.executed)
+	nontrivial.Add(seq3.nontriv)
+	seq3Ops, seq3KDF := seqOpsExecuted.Load()-seq2Ops, seqKDF.Load()-seq2KDF
+	seq3Seconds := time.Since(seqStart).Seconds()
+	seq23Ops, seq23KDF := seq2Ops+seq3Ops, seq2KDF+seq3KDF
+
 	// run
-	deadline := time.Now().Add(vf.Pick(r, 50*time.Second, 14*time.Minute))
+	deadline := time.Now().Add(slow(vf.Pick(r, 50*time.Second, 14*time.Minute)))
 	var capped atomic.Bool
 	var wg sync.WaitGroup
 	for w := 0; w < workers; w++ {
@@ -947,10 +984,13 @@ func TestCheck(t *testing.T) {
 
 	var caps []string
 	if capped.Load() {
-		caps = append(caps, fmt.Sprintf("deadline reached after %d of %d worker cases", done.Load()-envRes.evaluations-seq2.executed, len(cases)))
+		caps = append(caps, fmt.Sprintf("deadline reached after %d of %d worker cases", done.Load()-envRes.evaluations-seq2.executed-seq3.executed, len(cases)))
 	}
 	if seq2.stats.Capped != "" {
 		caps = append(caps, "two-directory sequence search: "+seq2.stats.Capped)
+	}
+	if seq3.stats.Capped != "" {
+		caps = append(caps, "file-shape sequence search: "+seq3.stats.Capped)
 	}
 	names := make([]string, len(P))
 	for i, p := range P {
@@ -966,6 +1006,7 @@ func TestCheck(t *testing.T) {
 		"roundtrip_import_passes": len(importPs),
 		"cases":                   counts,
 		"workers":                 workers,
+		"deadline_stretch_factor": slow(1),
 		"golden_vectors":          len(golden.Vectors),
 		"environment_phase_s":     envSeconds,
 		"sequence_one_directory": map[string]any{
@@ -973,13 +1014,25 @@ func TestCheck(t *testing.T) {
 			"histories_before_symmetry_reduction": pow(len(seqAlpha1), seqDepth1), "histories": counts["sequence_one_directory_histories"],
 			"symmetry":                           "of two histories that differ only by swapping P with Q the one whose first passphrase is P is executed",
 			"thorough_third_passphrase_alphabet": len(seqAlpha1E), "thorough_third_passphrase_depth": vf.Pick(r, 0, 3),
-			"operations_executed": seqOpsExecuted.Load() - seq2Ops, "argon2_key_derivations_by_the_model": seqKDF.Load() - seq2KDF, "state_merging": "none: every history is executed in full on fresh directories",
+			"operations_executed": seqOpsExecuted.Load() - seq23Ops, "argon2_key_derivations_by_the_model": seqKDF.Load() - seq23KDF, "state_merging": "none: every history is executed in full on fresh directories",
 		},
 		"sequence_two_directories": map[string]any{
 			"passphrases": seqPasses2, "alphabet": seq2.alphabet, "depth": seqDepth2, "depth_completed": seq2.stats.DepthDone,
 			"model_states": seq2.stats.States, "histories_generated": seq2.stats.Transitions, "histories_executed": seq2.executed, "new_states_per_level": seq2.stats.PerLevel,
 			"symmetry":            "of histories that differ only by swapping P with Q, or directory a with b, the one whose first passphrase is P and whose first operation works on a is executed",
 			"operations_executed": seq2Ops, "argon2_key_derivations_by_the_model": seq2KDF, "seconds": seq2Seconds,
+		},
+		"sequence_file_shapes": map[string]any{
+			"passphrases": seqPasses2, "alphabet": seq3.alphabet, "depth_bound": seqDepth3, "depth_completed": seq3.stats.DepthDone,
+			"fixed_point_reached":              len(seq3.stats.PerLevel) > 0 && seq3.stats.PerLevel[len(seq3.stats.PerLevel)-1] == 0 && seq3.stats.Capped == "",
+			"shapes":                           seq3.shapes,
+			"package_written_key_file_bytes":   seq3.compact,
+			"shapes_not_accepted_by_this_tree": seq3.demoted,
+			"model_states":                     seq3.stats.States, "histories_executed": seq3.executed, "new_states_per_level": seq3.stats.PerLevel,
+			"confirmed_writes_as_last_step":    seq3.writes,
+			"every_successful_write_confirmed": "LoadFileSystemSigner with the passphrase of the write, right after it, must give the key the call claims",
+			"state_merging":                    "model state = what the directory holds (none | file without key: shape | key: origin, passphrase) + the form of the key file (by-hand shape, or length of a package-written file); plant is absolute",
+			"operations_executed":              seq3Ops, "argon2_key_derivations_by_the_model": seq3KDF, "seconds": seq3Seconds,
 		},
 		"sequence_not_judged_observations": seqNotesSnapshot(),
 	}
@@ -988,8 +1041,8 @@ func TestCheck(t *testing.T) {
 	}
 	r.Finish(vf.Coverage{
 		Evaluations: done.Load(), DistinctNontrivial: nontrivial.Load(), States: int64(r.DistinctOutcomes()), Transitions: done.Load(),
-		Rule:       "plain nested loops, no sampling: every ordered (save,load) pair of the passphrase set × {created by the real writer, legacy salt-less} × {load, export}; every truncation length and every (position, replacement byte ≠ original) of signer.json, loaded/exported with the right passphrase; export→import→load/export for every save passphrase × import passphrases × {fresh, overwrite}; every ordered (written-in, opened-in) pair of environments within the GOMAXPROCS group and within the ambient (variables, cwd, umask) group, the check's process ↔ each re-executed child process, and every golden key file in every environment (serial phase before the workers; process globals restored afterwards); operation sequences: every history of exactly `depth` operations over the one-directory alphabet {create, load, export, export→import in place (thorough: also import of a fixed key)} × passphrases ∪ {junk import, delete by hand} executed in full without state merging and judged after every step against the reference model (what the directory holds, under which passphrase; the bytes of every key file are compared after every step, a difference after an operation that is not a successful write is settled by loading the saved key), and an explicit-state search (explore.BFS, histories merged on equal model states) over the same operations on two directories plus export(src)→import(dst) in both directions. Each case is a distinct input by construction; non-trivial = the input file still decodes as the key-file JSON (so key derivation and decryption are reached) or is an unmutated pair/roundtrip, or a sequence with at least one successful write; states = distinct (section, op, origin, result class) outcomes",
-		Exhaustive: !capped.Load() && seq2.stats.Capped == "", Caps: caps, Bounds: bounds,
+		Rule:       "plain nested loops, no sampling: every ordered (save,load) pair of the passphrase set × {created by the real writer, legacy salt-less} × {load, export}; every truncation length and every (position, replacement byte ≠ original) of signer.json, loaded/exported with the right passphrase; export→import→load/export for every save passphrase × import passphrases × {fresh, overwrite}; every ordered (written-in, opened-in) pair of environments within the GOMAXPROCS group and within the ambient (variables, cwd, umask) group, the check's process ↔ each re-executed child process, and every golden key file in every environment (serial phase before the workers; process globals restored afterwards); operation sequences: every history of exactly `depth` operations over the one-directory alphabet {create, load, export, export→import in place (thorough: also import of a fixed key)} × passphrases ∪ {junk import, delete by hand} executed in full without state merging and judged after every step against the reference model (what the directory holds, under which passphrase; the bytes of every key file are compared after every step, a difference after an operation that is not a successful write is settled by loading the saved key), and an explicit-state search (explore.BFS, histories merged on equal model states) over the same operations on two directories plus export(src)→import(dst) in both directions; and an explicit-state search on one directory whose alphabet adds the by-hand operations plant(shape) for every listed file shape (the valid key file re-indented, with trailing newline, with trailing junk, legacy salt-less files shorter and longer than what the package writes, empty, junk shorter and longer; thorough: 13 more) and reindent (the file the package just wrote, re-formatted in place), with import of a fixed key, create and export→import in place (re-encryption) executed on top of every reached state, every successful write confirmed at once by loading the key it claims with its passphrase, every refused or failed call followed by the byte comparison of the file it found; histories merged on model state + form of the key file, run until no new state appears (fixed_point_reached) or to the depth bound. Each case is a distinct input by construction; non-trivial = the input file still decodes as the key-file JSON (so key derivation and decryption are reached) or is an unmutated pair/roundtrip, or a sequence with at least one successful write; states = distinct (section, op, origin, result class) outcomes",
+		Exhaustive: !capped.Load() && seq2.stats.Capped == "" && seq3.stats.Capped == "", Caps: caps, Bounds: bounds,
 		Extra: map[string]any{"oracle_failures_by_clause_and_input_features": breakdown},
 	})
 }
